@@ -251,7 +251,8 @@ func (t *terminal) SendMouseRaw(btn MouseBtn, press bool, mods MouseFlag, x, y i
 			return nil
 		}
 	case MMPressReleaseMove:
-		if byte(mods)&mWhichBtn == byte(MRelease) {
+		// motion is reported only while a button is held
+		if mods&MMotion != 0 && byte(btn)&mWhichBtn == byte(MRelease) {
 			return nil
 		}
 	case MMPressReleaseMoveAll:
